@@ -55,8 +55,10 @@ class Face(ElementBase):
 
         if check_coplanar:
             pts = self.point_array
-            diff = abs(np.dot((pts[1] - pts[0]), np.cross(pts[3] - pts[0], pts[2] - pts[0])))
-            if diff > constants.TOL:
+            plane = np.cross(pts[3] - pts[0], pts[2] - pts[0])
+            diff = abs(np.dot((pts[1] - pts[0]), plane))
+            # a volume: compared with that of the face's own size, so that the check does not depend on it
+            if diff > constants.TOL * f.norm(pts[1] - pts[0]) * f.norm(plane):
                 raise FaceCreationError(
                     "FacePoints are not coplanar!", f"Difference: {diff}, tolerance: {constants.TOL}"
                 )
